@@ -20,11 +20,11 @@ RULE = ("valid small archives (py7zr-written for every codec family, +-AES, raw/
         "pristine member map. Violation: a read that returns normally with names/bytes != pristine; testzip()==None or test()==True while "
         "extraction of the same image fails or differs; damage verdict on the intact archive. A spinning call is recorded as deferred_to_C05. "
         "Cell = (archive label, damage kind, region of the damaged byte, outcome class).")
-EXHAUSTIVE = {"quick": "all single-bit flips and all truncation lengths of 15 archives (incl. one whose names LZMA2 stores uncompressed; every third bit of one with an AES-only encrypted header)", "thorough": "all single-bit flips and all truncation lengths of every corpus archive"}
+EXHAUSTIVE = {"quick": "all single-bit flips and all truncation lengths of 16 archives (incl. one with partially defined pack CRCs, one whose names LZMA2 stores uncompressed; every third bit of one with an AES-only encrypted header)", "thorough": "all single-bit flips and all truncation lengths of every corpus archive"}
 ASSUMPTIONS = ["success with identical content is correct (version bytes, padding, inter-section gaps are unprotected by design)"]
 QUICK_LABELS = ["py/default/encoded/f1", "py/default/raw/f3", "py/lzma/encoded/f1", "py/bzip2/encoded/f1", "py/deflate/encoded/f1", "py/copy/raw/f1",
                 "py/zstd/encoded/f1", "py/ppmd/encoded/f1", "py/lzma2+aes/encoded/f1", "py/copy+aes/encoded/f1", "ref/copy/packcrc/raw", "ref/nonsolid/3",
-                "ref/foldercrc/single", "py/default/encoded/cjk-names", "py/lzma2+aes/encrypted-header/f1"]
+                "ref/foldercrc/single", "py/default/encoded/cjk-names", "py/lzma2+aes/encrypted-header/f1", "ref/partial-packcrc"]
 # archives whose header stream carries no CRC at all cannot have header damage detected by any reader: outside the quantifier
 NOT_PROTECTED = {"ref/lzma/hdr-nocrc"}
 
